@@ -308,9 +308,12 @@ class StateMachine(metaclass=StateMachineMetaclass):
             See: :ref:`triggering events`.
 
         """
-        event_instance: BoundEvent = getattr(
-            self, event, BoundEvent(id=event, name=event, _sm=self)
-        )
+        # Only declared events are resolved as attributes: any other name (even if it happens to
+        # be the name of a method, property or state of the machine) is an unknown event.
+        if event in self.__class__._events:
+            event_instance: BoundEvent = getattr(self, event)
+        else:
+            event_instance = BoundEvent(id=event, name=event, _sm=self)
         result = event_instance(*args, **kwargs)
         if not isawaitable(result):
             return result
